@@ -33,6 +33,8 @@ pub trait Logic: Sized + Clone {
     fn tol(real: f64, float: f64) -> Self;
     fn k(v: f64) -> Self;
     fn is_symbolic() -> bool;
+    /// the two values are the SAME term (symbolic) / bit-identical (replay)
+    fn same_term(a: &Self, b: &Self) -> bool;
     /// mask of the type's own comparison (used to state contracts about mask-returning functions)
     fn mask_prop(m: <Self as HasBoolMask>::Mask) -> Self::P where Self: HasBoolMask;
 }
@@ -61,6 +63,7 @@ macro_rules! sym_logic {
             fn tol(real: f64, float: f64) -> Self { $T(mk(Node::Tol(real.to_bits(), float.to_bits()))) }
             fn k(v: f64) -> Self { $T::c(v) }
             fn is_symbolic() -> bool { true }
+            fn same_term(a: &Self, b: &Self) -> bool { a.0 == b.0 }
             fn mask_prop(m: <Self as HasBoolMask>::Mask) -> Id { ($mask)(m) }
         }
     };
@@ -109,6 +112,7 @@ macro_rules! float_logic {
             fn tol(_real: f64, float: f64) -> Self { float as $F }
             fn k(v: f64) -> Self { v as $F }
             fn is_symbolic() -> bool { false }
+            fn same_term(a: &Self, b: &Self) -> bool { a.to_bits() == b.to_bits() }
             fn mask_prop(m: bool) -> bool { m }
         }
     };
@@ -145,4 +149,16 @@ pub fn conj<T: Num>(ps: &[T::P]) -> T::P {
     let mut r = T::p_true();
     for p in ps { r = T::p_and(r, p.clone()); }
     r
+}
+
+/// |a - b| <= tol, discharged syntactically when both sides are the same term
+pub fn same_or_close<T: Num>(a: T, b: T, tol: T) -> T::P {
+    if T::same_term(&a, &b) { T::p_true() } else { abs_le(a, b, tol) }
+}
+/// equal modulo 360 within tol, discharged syntactically when both sides are the same term
+pub fn same_or_hue_close<T: Num>(a: T, b: T, tol: T) -> T::P {
+    if T::same_term(&a, &b) { return T::p_true(); }
+    let d = a - b;
+    let z = |x: T| T::p_and(T::p_le(&x, &tol), T::p_le(&(-tol), &x));
+    T::p_or(z(d), T::p_or(z(d - T::k(360.0)), z(d + T::k(360.0))))
 }
